@@ -34,10 +34,12 @@ package grandpa
 // the honest full commit (every authority, valid, on the target) must be accepted, otherwise the
 // harness fails (exit 2), because a verifier rejecting everything would make the check vacuous.
 //
-// A violation is classified by the smallest set of loosenesses of the count that explains the
-// acceptance (thr: count >= floor(2n/3) suffices; dup: repeated entries of one authority are
-// counted repeatedly; feq: an id listed twice with different signature bytes counts as an
-// equivocator without two valid different precommits); anything else is ":unexplained".
+// A violation is classified by the minimal sets of loosenesses of the count that explain the
+// acceptance (threshold: count >= floor(2n/3) suffices; duplicates: repeated entries of one
+// authority are counted repeatedly; forged-equivocators: an id listed twice with different signature
+// bytes counts as an equivocator without two valid different precommits).  A "+" joins
+// loosenesses that are needed together, a "|" separates alternative minimal explanations (either one
+// alone lets this commit through); anything else is ":unexplained".
 
 import (
 	"encoding/json"
@@ -269,25 +271,36 @@ func c18Oracle(e *c18Elem) c18Counts {
 	}
 	T := 2 * n / 3
 	out := c18Counts{C0: count(false, false), T: T}
-	type model struct {
-		name          string
-		thr, dup, feq bool
+	// every minimal set of loosenesses that explains an acceptance (bit 0 thr, bit 1 dup, bit 2 feq)
+	names := []string{"threshold", "duplicates", "forged-equivocators"}
+	explains := [8]bool{}
+	for m := 1; m < 8; m++ {
+		c := count(m&2 != 0, m&4 != 0)
+		explains[m] = (m&1 != 0 && c >= T) || (m&1 == 0 && 3*c > 2*n)
 	}
-	for _, m := range []model{
-		{"threshold", true, false, false},
-		{"duplicates", false, true, false},
-		{"forged-equivocators", false, false, true},
-		{"threshold+duplicates", true, true, false},
-		{"threshold+forged-equivocators", true, false, true},
-		{"duplicates+forged-equivocators", false, true, true},
-		{"threshold+duplicates+forged-equivocators", true, true, true},
-	} {
-		c := count(m.dup, m.feq)
-		if (m.thr && c >= T) || (!m.thr && 3*c > 2*n) {
-			out.Explained = m.name
-			break
+	var minimal []string
+	for _, m := range []int{1, 2, 4, 3, 5, 6, 7} {
+		if !explains[m] {
+			continue
 		}
+		isMin := true
+		for sub := 1; sub < m; sub++ {
+			if sub&m == sub && explains[sub] {
+				isMin = false
+			}
+		}
+		if !isMin {
+			continue
+		}
+		var parts []string
+		for b := 0; b < 3; b++ {
+			if m&(1<<b) != 0 {
+				parts = append(parts, names[b])
+			}
+		}
+		minimal = append(minimal, strings.Join(parts, "+"))
 	}
+	out.Explained = strings.Join(minimal, "|")
 	if out.Explained == "" {
 		out.Explained = "unexplained"
 	}
@@ -328,7 +341,7 @@ type c18Result struct {
 // c18Run delivers the commit to a fresh real Service.
 func c18Run(e *c18Elem) (res c18Result, err error) {
 	tree := c18Tree()
-	nd := c21NewNode(tree, c18G, e.N, 0)
+	nd := c21GetNode(tree, c18G, e.N, 0)
 	if ierr := nd.svc.initiateRound(); ierr != nil {
 		panic(fmt.Sprintf("c18: initiateRound: %v", ierr))
 	}
@@ -353,6 +366,9 @@ func c18Run(e *c18Elem) (res c18Result, err error) {
 		res.Finalised = append(res.Finalised, name)
 	}
 	res.Err = c18ErrClass(err)
+	if !p {
+		c21PutNode(nd) // a node that panicked may hold locks: never reused
+	}
 	return res, err
 }
 
@@ -366,7 +382,9 @@ func c18NormalEntries(slot int) []c18Entry {
 // c18DeviantEntries: every other entry of the alphabet for an authority slot.
 func c18DeviantEntries(slot int, blocks []int) []c18Entry {
 	var out []c18Entry
-	for _, k := range []int{c18BadSig, c18OtherRound, c18OtherSet, c18PrevoteStage, c18WrongNum} {
+	kinds := verifmc.Pick([]int{c18BadSig, c18OtherRound, c18OtherSet, c18WrongNum},
+		[]int{c18BadSig, c18OtherRound, c18OtherSet, c18PrevoteStage, c18WrongNum})
+	for _, k := range kinds {
 		for _, b := range blocks {
 			out = append(out, c18Entry{slot, k, b})
 		}
@@ -466,7 +484,7 @@ func c18Elements() (elems []c18Elem, rule string) {
 	// S2: sequences with 1..dmax deviant entries
 	type s2b struct{ n, maxL, dmax int }
 	s2 := verifmc.Pick(
-		[]s2b{{1, 3, 2}, {2, 4, 2}, {3, 4, 2}, {4, 4, 2}},
+		[]s2b{{1, 3, 2}, {2, 4, 2}, {3, 4, 2}, {4, 4, 1}},
 		[]s2b{{1, 3, 3}, {2, 4, 3}, {3, 5, 2}, {4, 5, 2}, {5, 4, 2}, {6, 4, 2}, {7, 4, 2}})
 	devBlocksQuick := []int{c18A, c18B}
 	devBlocksThorough := []int{c18A, c18A1, c18B}
@@ -499,7 +517,7 @@ func c18Elements() (elems []c18Elem, rule string) {
 	rule = fmt.Sprintf("commits (target in {A,A1,B} of the tree G->A->A1, G->B; ordered entry list) delivered to the real handleCommitMessage of a fresh real Service with n fixed authorities. "+
 		"S0: n=1..7, every assignment authority -> {absent, valid precommit for A, A1, B}. "+
 		"S1: every sequence (up to authority renaming) of valid precommits for A/A1/B incl. repetitions and equivocations, (n,max length) in %v. "+
-		"S2: every such sequence in which 1..dmax entries are deviant (badsig/otherround/otherset/prevote-stage/wrong-number for blocks %v, valid for the ancestor G, valid for an unknown block, valid by a non-authority), (n,max length,dmax) in %v. "+
+		"S2: every such sequence in which 1..dmax entries are deviant (badsig/otherround/otherset/wrong-number (thorough: also prevote-stage) for blocks %v, valid for the ancestor G, valid for an unknown block, valid by a non-authority), (n,max length,dmax) in %v. "+
 		"S3: n=1..4, honest full commit and the commit one entry short, with each message-level deviation %v. "+
 		"Non-trivial = distinct (n, target class, per-authority behaviour multiset, verdict) classes.",
 		s1, func() []string {
@@ -531,15 +549,53 @@ func c18ClassKey(e *c18Elem, res c18Result, oc c18Counts) string {
 	return fmt.Sprintf("n%d|%s|%s|fin=%d|%s", e.N, c18MsgName[e.MsgDev], strings.Join(beh, ";"), len(res.Finalised), res.Err)
 }
 
-func c18Check(r *verifmc.Report, t *testing.T, e *c18Elem) {
+// c18Vio is one violation; violations are collected and reported simplest first (fewest entries,
+// smallest n, enumeration order) so that the witnesses kept per signature are minimal and the same in every run.
+type c18Vio struct {
+	sig, desc string
+	elem      *c18Elem
+	replay    any
+	order     int
+}
+
+type c18Sink struct {
+	mu   sync.Mutex
+	vios []c18Vio
+}
+
+func (s *c18Sink) Violate(sig, desc string, e *c18Elem, replay any, order int) {
+	s.mu.Lock()
+	s.vios = append(s.vios, c18Vio{sig, desc, e, replay, order})
+	s.mu.Unlock()
+}
+
+func (s *c18Sink) flush(r *verifmc.Report) {
+	sort.SliceStable(s.vios, func(i, j int) bool {
+		a, b := s.vios[i], s.vios[j]
+		if len(a.elem.Entries) != len(b.elem.Entries) {
+			return len(a.elem.Entries) < len(b.elem.Entries)
+		}
+		if a.elem.N != b.elem.N {
+			return a.elem.N < b.elem.N
+		}
+		return a.order < b.order
+	})
+	for _, v := range s.vios {
+		r.Violate(v.sig, v.desc, v.replay)
+	}
+}
+
+func c18Check(r *verifmc.Report, sink *c18Sink, order int, t *testing.T, e *c18Elem) {
 	oc := c18Oracle(e)
 	res, _ := c18Run(e)
 	r.Add("evaluations", 1)
 	r.Add("evaluations_"+e.Space, 1)
-	replay := map[string]any{"elem": e, "rendered": e.render(), "result": res, "C0": oc.C0, "n": e.N,
-		"needs_more_than": fmt.Sprintf("2n/3 = %d/3", 2*e.N), "repeat": 5}
+	mkReplay := func() any {
+		return map[string]any{"elem": e, "rendered": e.render(), "result": res, "C0": oc.C0, "n": e.N,
+			"needs_more_than": fmt.Sprintf("2n/3 = %d/3", 2*e.N), "repeat": 5}
+	}
 	if res.Panic != "" {
-		r.Violate("panic:"+verifmc.PanicSite(res.Panic), res.Panic, replay)
+		sink.Violate("panic:"+verifmc.PanicSite(res.Panic), res.Panic, e, mkReplay(), order)
 		return
 	}
 	accepted := len(res.Finalised) > 0 || res.Err == "nil"
@@ -558,8 +614,8 @@ func c18Check(r *verifmc.Report, t *testing.T, e *c18Elem) {
 	if len(res.Finalised) > 0 && e.MsgDev != c18MsgTargetUnknown {
 		for _, f := range res.Finalised {
 			if f != c18BlkName[e.Target] {
-				r.Violate("commit-finalises-a-block-other-than-its-target",
-					fmt.Sprintf("%s: SetFinalisedHash(%s)", e.render(), f), replay)
+				sink.Violate("commit-finalises-a-block-other-than-its-target",
+					fmt.Sprintf("%s: SetFinalisedHash(%s)", e.render(), f), e, mkReplay(), order)
 			}
 		}
 	}
@@ -573,9 +629,9 @@ func c18Check(r *verifmc.Report, t *testing.T, e *c18Elem) {
 		if len(res.Finalised) == 0 && e.MsgDev == c18MsgDeliveredTwice {
 			return
 		}
-		r.Violate("commit-finalises-below-supermajority:"+oc.Explained,
+		sink.Violate("commit-finalises-below-supermajority:"+oc.Explained,
 			fmt.Sprintf("%s: %s (err=%s) although only %d distinct authorities validly precommitted to the target chain or genuinely equivocated; more than 2n/3 = %d/3 are required (floor(2n/3) = %d)",
-				e.render(), what, res.Err, oc.C0, 2*e.N, oc.T), replay)
+				e.render(), what, res.Err, oc.C0, 2*e.N, oc.T), e, mkReplay(), order)
 	}
 	// non-vacuity: the honest full commit must be accepted
 	if e.Space == "S0" && len(e.Entries) == e.N {
@@ -617,20 +673,24 @@ func TestVerif_C18(t *testing.T) {
 		if f.Replay.Repeat == 0 {
 			f.Replay.Repeat = 1
 		}
+		sink := &c18Sink{}
 		for i := 0; i < f.Replay.Repeat; i++ {
-			c18Check(r, t, &f.Replay.Elem)
+			c18Check(r, sink, i, t, &f.Replay.Elem)
 		}
+		sink.flush(r)
 		return
 	}
 	elems, rule := c18Elements()
 	r.Rule = rule
 	r.Assumption("an entry is taken to be validly signed iff the harness signed exactly (precommit, carried vote, commit round, current set) with the listed key (ed25519 of lib/crypto/ed25519 = crypto/ed25519); the honest commits check that the real verifier agrees")
 	r.Assumption("the code path ranges over no map (getEquivocatoryVoters and authorityKeySet only build and look up maps), so elements are executed once; violations are re-executed 5 times before being reported")
+	sink := &c18Sink{}
 	verifmc.ParallelFor(r, len(elems), func(i int) {
-		c18Check(r, t, &elems[i])
+		c18Check(r, sink, i, t, &elems[i])
 	}, func(i int, msg string) {
-		r.Violate("harness-panic", msg, map[string]any{"elem": elems[i]})
+		sink.Violate("harness-panic", msg, &elems[i], map[string]any{"elem": &elems[i]}, i)
 	})
+	sink.flush(r)
 	// every violation kept in the report must reproduce (5x)
 	for _, v := range r.Violations {
 		m, ok := v.Replay.(map[string]any)
